@@ -461,6 +461,15 @@ struct QHarness {
     if (large) np = 4 + (int)vrt::choose(par.k > 10000 ? 9 : 20);
     else if (A::spec == S_NIKB || A::spec == S_VYU || A::spec == S_KB) np = (int)vrt::choose(2 * 8 + 3);
     nprefix = np;
+    if constexpr (A::spec == S_NIKB) {
+      // known finding F23 attributes unjustified verdicts to "more threads than slots"; so that the threshold logic
+      // stays well covered where that excuse does not apply, every second such case gets a capacity that is large
+      // enough for its threads (no extra draw: the parity of the prefix length decides)
+      if ((uint32_t)nthreads > par.cap && np % 2 == 0) {
+        par.cap = 4;
+        vrt::label("capacity_raised_to_thread_count");
+      }
+    }
     for (int i = 0; i < np; ++i) {
       prefix[i].kind = (uint8_t)(vrt::choose(4) == 0 ? K_POP : K_PUSH);
       prefix[i].variant = 0;
